@@ -444,20 +444,21 @@ func checkC03(c *Ctx) {
 	started := false
 	for _, unit := range m.ClaimSet {
 		var claimStore ssa.Instruction
-		eachInstr(unit, func(in ssa.Instruction) {
+		m.eachUnitInstr(unit, func(in ssa.Instruction) {
 			if val, isConst, ok := m.claimStore(in); ok && isConst && val {
 				claimStore = in
 			}
 		})
 		for _, sp := range m.Spawns() {
-			if sp.Fn != unit {
+			if !containsFn(m.bodyFns(unit), sp.Fn) {
 				continue
 			}
 			for _, t := range sp.Targets {
 				if m.staticReach(t, false)[rf] {
 					started = true
-					c.check(claimStore != nil && dominatesInstr(claimStore, sp.At) && la.MustBefore(sp.At)[m.implMuW()] && sp.Tracked, "R4", "claim implies refresh loop: started by "+shortFn(unit), sp.At,
-						"claim store dominates the go: %v; under the election mutex: %v; tracked by the WaitGroup: %v", claimStore != nil && dominatesInstr(claimStore, sp.At), la.MustBefore(sp.At)[m.implMuW()], sp.Tracked)
+					dom := claimStore != nil && m.dominatesLifted(unit, claimStore, sp.At)
+					c.check(dom && la.MustBefore(sp.At)[m.implMuW()] && sp.Tracked, "R4", "claim implies refresh loop: started by "+shortFn(unit), sp.At,
+						"claim store dominates the go: %v; under the election mutex: %v; tracked by the WaitGroup: %v", dom, la.MustBefore(sp.At)[m.implMuW()], sp.Tracked)
 				}
 			}
 		}
@@ -650,7 +651,7 @@ func sameLoop(a, b *ssa.BasicBlock) bool {
 func (m *Model) termContextCalls() []*ssa.Call {
 	var out []*ssa.Call
 	for _, unit := range m.ClaimSet {
-		eachInstr(unit, func(in ssa.Instruction) {
+		m.eachUnitInstr(unit, func(in ssa.Instruction) {
 			k, ok := in.(*ssa.Call)
 			if !ok {
 				return
@@ -690,7 +691,7 @@ func termLoopRule(c *Ctx, rule string) {
 	terms := m.termContextCalls()
 	n := 0
 	for _, sp := range m.Spawns() {
-		if !containsFn(m.ClaimSet, topFunc(sp.Fn)) {
+		if !m.inClaimUnit(topFunc(sp.Fn)) {
 			continue
 		}
 		for _, t := range sp.Targets {
